@@ -117,6 +117,17 @@ func (o *c06Oracles) probeLeaf(op ir.FilterOp, s string) int {
 	return v
 }
 
+// c06Try runs a trusted-library call of the oracle; a panic inside it is the loader's to exhibit (it makes the same
+// call), not a reason for the harness to stop: the oracle then answers "not accepted".
+func c06Try(f func() bool) (ok bool) {
+	defer func() {
+		if recover() != nil {
+			ok = false
+		}
+	}()
+	return f()
+}
+
 func (o *c06Oracles) render(f *ir.File, accepted func(string) bool, funcs []string) string {
 	var gg, tm, txm, re, tfs, ntag, iface, fref, gover []string
 	seen := map[string]bool{}
@@ -132,7 +143,15 @@ func (o *c06Oracles) render(f *ir.File, accepted func(string) bool, funcs []stri
 		if !once("gg", s) {
 			return
 		}
-		p, info, err := gogrep.Compile(gogrep.CompileConfig{Fset: token.NewFileSet(), Src: s, WithTypes: true})
+		var p *gogrep.Pattern
+		var info gogrep.PatternInfo
+		var err error
+		if !c06Try(func() bool {
+			p, info, err = gogrep.Compile(gogrep.CompileConfig{Fset: token.NewFileSet(), Src: s, WithTypes: true})
+			return true
+		}) {
+			err = fmt.Errorf("panic")
+		}
 		if err != nil {
 			gg = append(gg, fmt.Sprintf("(%s -1)", hx.HexS(s)))
 			return
@@ -180,16 +199,16 @@ func (o *c06Oracles) render(f *ir.File, accepted func(string) bool, funcs []stri
 			if s, ok := e.Args[0].Value.(string); ok {
 				switch e.Op {
 				case ir.FilterVarTextMatchesOp:
-					if _, err := textmatch.Compile(s); err == nil && once("txm", s) {
+					if c06Try(func() bool { _, err := textmatch.Compile(s); return err == nil }) && once("txm", s) {
 						txm = append(txm, hx.HexS(s))
 					}
 				case ir.FilterRootNodeParentIsOp, ir.FilterVarNodeIsOp:
-					if nodetag.FromString(s) != nodetag.Unknown && once("ntag", s) {
+					if c06Try(func() bool { return nodetag.FromString(s) != nodetag.Unknown }) && once("ntag", s) {
 						ntag = append(ntag, hx.HexS(s))
 					}
 				case ir.FilterRootSinkTypeIsOp, ir.FilterVarTypeIsOp, ir.FilterVarTypeUnderlyingIsOp:
 					ctx := typematch.Context{Itab: typematch.NewImportsTab(stdinfo.PathByName)}
-					if _, err := typematch.Parse(&ctx, s); err == nil && once("tm", s) {
+					if c06Try(func() bool { _, err := typematch.Parse(&ctx, s); return err == nil }) && once("tm", s) {
 						tm = append(tm, hx.HexS(s))
 					}
 				case ir.FilterVarTypeConvertibleToOp, ir.FilterVarTypeAssignableToOp:
@@ -262,18 +281,36 @@ type c06Gen struct {
 
 func (g *c06Gen) pick(xs []string) string { return xs[g.r.Intn(len(xs))] }
 
+// typeStrs: the fixed type strings plus generated ones (interface types of every element count and kind, at any depth)
+func (g *c06Gen) typeStrs() []string {
+	xs := append([]string{}, c06TypeStrs...)
+	for i := 0; i < 6; i++ {
+		xs = append(xs, c06TypeString(g.r, 1+g.r.Intn(3)))
+	}
+	return xs
+}
+
 func (g *c06Gen) strArg(xs []string) ir.FilterExpr {
+	// an argument is not always on its call's line (a call that spans lines, a helper's expansion): the loader
+	// reports some errors at the argument's line and some at the call's
+	line := g.line
+	switch g.r.Intn(4) {
+	case 0:
+		line = g.line + 1
+	case 1:
+		line = g.line + 100
+	}
 	if g.malformed && g.r.Intn(4) == 0 {
 		switch g.r.Intn(3) {
 		case 0:
-			return ir.FilterExpr{Line: g.line, Op: ir.FilterStringOp, Value: int64(3)}
+			return ir.FilterExpr{Line: line, Op: ir.FilterStringOp, Value: int64(3)}
 		case 1:
-			return ir.FilterExpr{Line: g.line, Op: ir.FilterIntOp, Value: int64(3)}
+			return ir.FilterExpr{Line: line, Op: ir.FilterIntOp, Value: int64(3)}
 		default:
-			return ir.FilterExpr{Line: g.line, Op: ir.FilterVarTextOp, Value: "x"}
+			return ir.FilterExpr{Line: line, Op: ir.FilterVarTextOp, Value: "x"}
 		}
 	}
-	return ir.FilterExpr{Line: g.line, Op: ir.FilterStringOp, Value: g.pick(xs)}
+	return ir.FilterExpr{Line: line, Op: ir.FilterStringOp, Value: g.pick(xs)}
 }
 
 func (g *c06Gen) varValue() interface{} {
@@ -337,7 +374,7 @@ func (g *c06Gen) fe(depth int) ir.FilterExpr {
 	case 4:
 		return mk(ir.FilterVarNodeIsOp, g.varValue(), g.strArg(c06NodeTags))
 	case 5:
-		return mk(ir.FilterRootSinkTypeIsOp, nil, g.strArg(c06TypeStrs))
+		return mk(ir.FilterRootSinkTypeIsOp, nil, g.strArg(g.typeStrs()))
 	case 6:
 		return mk(ir.FilterVarTypeHasPointersOp, g.varValue())
 	case 7:
@@ -345,9 +382,9 @@ func (g *c06Gen) fe(depth int) ir.FilterExpr {
 	case 8:
 		return mk(ir.FilterVarTypeIdenticalToOp, g.varValue(), ir.FilterExpr{Line: line, Op: ir.FilterStringOp, Value: g.varValue()})
 	case 9:
-		return mk([]ir.FilterOp{ir.FilterVarTypeIsOp, ir.FilterVarTypeUnderlyingIsOp}[g.r.Intn(2)], g.varValue(), g.strArg(c06TypeStrs))
+		return mk([]ir.FilterOp{ir.FilterVarTypeIsOp, ir.FilterVarTypeUnderlyingIsOp}[g.r.Intn(2)], g.varValue(), g.strArg(g.typeStrs()))
 	case 10:
-		return mk([]ir.FilterOp{ir.FilterVarTypeConvertibleToOp, ir.FilterVarTypeAssignableToOp}[g.r.Intn(2)], g.varValue(), g.strArg(c06TypeStrs))
+		return mk([]ir.FilterOp{ir.FilterVarTypeConvertibleToOp, ir.FilterVarTypeAssignableToOp}[g.r.Intn(2)], g.varValue(), g.strArg(g.typeStrs()))
 	case 11:
 		return mk(ir.FilterVarTypeImplementsOp, g.varValue(), g.strArg(c06Ifaces))
 	case 12:
@@ -491,13 +528,20 @@ func runC06(c *Ctx) error {
 	res := c.Res
 	nIR, nSrc := 1500, 400
 	if c.Thorough {
-		nIR, nSrc = 40000, 12000
+		nIR, nSrc = 20000, 6000
 	}
 	res.Rule = fmt.Sprintf("(1) %d generated ir.File values (every filter op, And/Or/Not nesting, comparisons with constants on either side, syntax and comment alternatives, "+
 		"At() variables, Do functions, group filters; 1/3 malformed: wrong value kinds, missing args, bad ops): real LoadFromIR outcome class (accepted alternatives with buckets / "+
 		"error line / panic kind) == Lean model loadFile with the trusted libraries' answers as oracles; what the implementation accepts must be structurally sound (spec06.unsound); "+
 		"(2) IR produced by the real irconv from the fixture rule files and generated DSL must satisfy the well-formedness hypothesis of load_total (spec06.wf); "+
-		"(3) front-half search: %d rules sources (fixtures, token-level mutations, arbitrary bytes) through Engine.Load under recover+timeout: error or success, never a panic or hang. "+
+		"(3) front-half search: %d rules sources (fixtures, token-level mutations, arbitrary bytes) through Engine.Load under recover+timeout: error or success, never a panic or hang; "+
+		"(4) look-alike stream: generated rules files that are valid Go but not valid DSL (user types whose members are named like the DSL's chain methods and predicates, called with 0/1/2 "+
+		"arguments of right and wrong types; bodyless functions and methods, extra parameters/results, methods as groups, local helpers over look-alike values, groups mixing real and look-alike "+
+		"chains) through Engine.Load under recover; single look-alike Where clauses: real ConvertFile == Lean Conv.convert, irconv's output inside the well-formedness domain (spec06.wfwhy) "+
+		"and LoadFromIR on it does not panic (the executable form of C06.source_filter_load_total); single call statements: real convertRuleExpr == Lean Comp.convertRuleG; "+
+		"(5) class streams through Engine.Load + the loader model + the soundness oracle: comparisons between two variables (every operator, Line/Text/Type.Size/Value.Int) x Match/MatchComment "+
+		"alternatives binding different subsets x At(); group-local helpers over named string constants (package-level, function-local, typed, concatenated) at every string position, nested; "+
+		"type strings with interface types of every element count and kind at any depth at every type position (also in the IR stream). "+
 		"Non-trivial IR: a where clause with >= 2 nodes; distinct by serialised value", nIR, nSrc)
 	rng := hx.Rng(c.Seed, "c06")
 	orc := &c06Oracles{probeCache: map[string]int{}}
@@ -567,7 +611,13 @@ func runC06(c *Ctx) error {
 	if err := c06WF(c); err != nil {
 		return err
 	}
-	return c06Front(c, nSrc)
+	if err := c06Front(c, nSrc); err != nil {
+		return err
+	}
+	if err := c06Look(c); err != nil {
+		return err
+	}
+	return c06Classes(c)
 }
 
 // c06Convert runs the real front half (parse, type-check, irconv) on a rules source.
